@@ -116,7 +116,7 @@ def replay_lanczos(rep, light=False, traces=None):
                 before = B.arr(psi0).copy()
                 with warnings.catch_warnings():
                     warnings.simplefilter('ignore')
-                    eng = kb.LanczosGroundState(make_H(), psi0, opts)
+                    eng = kb.LanczosGroundState(make_H(), psi0, dict(opts))
                     E, psi, N = eng.run()
                 rep.count('LanczosGroundState', (run['Nmax'], reo, cls_nc(nc)))
                 x = B.arr(psi)
@@ -156,8 +156,8 @@ def replay_lanczos(rep, light=False, traces=None):
                     with warnings.catch_warnings():
                         warnings.simplefilter('ignore')
                         H2 = make_H()
-                        kb.LanczosGroundState(H2, B.vec(), opts).run()
-                        E2, psi2, N2 = kb.LanczosGroundState(H2, B.vec(), opts).run()
+                        kb.LanczosGroundState(H2, B.vec(), dict(opts)).run()
+                        E2, psi2, N2 = kb.LanczosGroundState(H2, B.vec(), dict(opts)).run()
                     rep.count('LanczosGroundState', (run['Nmax'], reo, 'operator-reused'))
                     if abs(E2 - E) > tol or int(N2) != int(N):
                         rep.fail('LanczosGroundState', 'operator-modified', dict(classes, op_reused=True),
@@ -183,7 +183,7 @@ def replay_lanczos(rep, light=False, traces=None):
                 opts['E_shift'] = sigma
 
             def mk(W):
-                e = kb.LanczosGroundState(make_H(), B.vec(), opts)
+                e = kb.LanczosGroundState(make_H(), B.vec(), dict(opts))
                 e.H = W(e.H)
                 return e
             evs, out = hk.record(mk, (), m=case['mE'])
@@ -268,7 +268,7 @@ def replay_evo(rep, light=False, traces=None):
                         with warnings.catch_warnings():
                             warnings.simplefilter('ignore')
                             if eng is None or not share:
-                                eng = cls(B.op(), psi0, opts)
+                                eng = cls(B.op(), psi0, dict(opts))
                             res, N = eng.run(delta, normalize=normalize)
                         rep.count(name, (run['Nmax'], cls_nc(nc), dk, t, normalize))
                         y = B.arr(res)
@@ -309,7 +309,7 @@ def replay_evo(rep, light=False, traces=None):
             opts['N_cache'] = nc
 
         def mk(W):
-            e = kb.LanczosEvolution(B.op(), B.vec(), opts)
+            e = kb.LanczosEvolution(B.op(), B.vec(), dict(opts))
             e.H = W(e.H)
             return e
         evs, out = hk.record(mk, (1j * math.pi / 2,), m=case['m'])
@@ -348,7 +348,7 @@ def replay_arnoldi(rep, light=False):
                 psi0 = B.vec()
                 with warnings.catch_warnings():
                     warnings.simplefilter('ignore')
-                    Es, psis, N = kb.Arnoldi(B.op(), psi0, opts).run()
+                    Es, psis, N = kb.Arnoldi(B.op(), psi0, dict(opts)).run()
                 rep.count('Arnoldi', (run['Nmax'], which, numev))
                 Es = np.asarray(Es, dtype=complex)
                 det = dict(options=opts, Es=[[float(e.real), float(e.imag)] for e in Es], N=int(N))
@@ -428,7 +428,7 @@ def replay_gmres(rep, light=False):
             with warnings.catch_warnings():
                 warnings.simplefilter('ignore')
                 try:
-                    x, res, tot_err, tot_it = kb.GMRES(B.op(), xv, bv, opts).run()
+                    x, res, tot_err, tot_it = kb.GMRES(B.op(), xv, bv, dict(opts)).run()
                 except Exception as e:
                     rep.count('GMRES', (nmax, cls_nc(nmin)))
                     rep.fail('GMRES', 'exception', dict(classes, exc=type(e).__name__), dict(options=opts, exc=repr(e)))
@@ -487,10 +487,23 @@ REPLAY = dict(lanczos=replay_lanczos, evo=replay_evo, arnoldi=replay_arnoldi, gm
 def replay_case(ctx, case, origin, variant, light, traces):
     rep = Rep(ctx, case, origin, variant)
     fn = REPLAY[case['kind']]
-    if case['kind'] in ('lanczos', 'evo'):
-        fn(rep, light=light, traces=traces)
-    else:
-        fn(rep, light=light)
+    try:
+        if case['kind'] in ('lanczos', 'evo'):
+            fn(rep, light=light, traces=traces)
+        else:
+            fn(rep, light=light)
+    except core.MachineryError:
+        raise
+    except Exception as e:
+        # raised inside tenpy (the harness code around it only handles spec data that TLC certified)
+        import traceback
+        tb = traceback.extract_tb(e.__traceback__)
+        inside = [f for f in tb if '/tenpy/' in f.filename]
+        if not inside:
+            raise
+        rep.count(case['kind'], 'exception')
+        rep.fail(case['kind'], 'exception', dict(exc=type(e).__name__, where=inside[-1].name),
+                 dict(exc=repr(e), traceback=traceback.format_exc()))
     return rep.ok
 
 
@@ -630,13 +643,17 @@ def validate(ctx, traces):
             ctx.violation(dict(kind='trace', spec='TraceKrylov', clause='rejected', engine=meta['engine'], pc=pcv,
                                reortho=bool(o.get('reortho')), ncache=cls_nc(o.get('N_cache'))),
                           dict(meta=meta, rejected_at_event=l, spec_pc=pcv, events=evs))
-    return len(acc)
+    return acc
 
 
-def canary(ctx, cases, traces):
+def canary(ctx, cases, traces, accepted):
     """the binding rejects corrupted expectations / traces (run every time; cheap)"""
     # (a) a corrupted trace must be rejected, the original accepted
-    evs = copy.deepcopy(max((t for t in traces), key=lambda t: len(t[0]))[0])
+    good = [t for i, t in enumerate(traces) if (i + 1) in accepted and any(e['op'] == 'Iadd' and e['c'] >= 1 for e in t[0])]
+    if not good:
+        ctx.notes['canary'] = 'skipped: no accepted trace with a result term (violations reported above)'
+        return
+    evs = copy.deepcopy(max(good, key=lambda t: len(t[0]))[0])
     bad = copy.deepcopy(evs)
     for e in bad:
         if e['op'] == 'Iadd' and e['c'] >= 1:
@@ -716,10 +733,21 @@ def check(ctx):
         if not only and not kinds_seen.get(k):
             raise core.MachineryError('no %s case replayed' % k)
     t2 = time.time()
-    validate(ctx, traces)
-    canary(ctx, cases, traces)
+    accepted = validate(ctx, traces)
+    canary(ctx, cases, traces, accepted)
     ctx.notes['wall_trace_s'] = round(time.time() - t2, 1)
-    ctx.exhaustive = True
+    ctx.exhaustive = (ctx.tier == 'thorough')
+    if not only:
+        # no vacuity: every action of the specification was taken in MC, every trace action matched a real event
+        need = ['DoBeginBlock', 'DoSetD', 'DoEndOp', 'DoSetA', 'DoOptLanczos', 'DoOptEvo', 'DoOptArnoldi', 'DoOptGmres',
+                'DoOptGsBegin', 'DoOptGsRow', 'DoOptGsEnd', 'DoBuild', 'DoStart', 'BScale', 'BCache', 'BMatvec', 'BAlpha',
+                'BReortho', 'BBeta', 'BBreak', 'BNext', 'RReturn1', 'RMul', 'RCached', 'RClear', 'QCache', 'QMatvec', 'QAlpha',
+                'QReortho', 'QBeta', 'QScale', 'QAdd', 'RNorm', 'RReturn']
+        need += ['Tr' + a for a in need[13:]] + ['TrStart', 'TrAccept']
+        never = [a for a in need if ctx.coverage_actions.get(a, (0, 0))[1] == 0]
+        ctx.notes['actions_never_taken'] = never
+        if never and not ctx.violations:
+            raise core.MachineryError('specification actions never taken / never matched by a recorded event: %s' % never)
     ctx.notes['exhaustive_scope'] = ('control-flow machine: all options up to MaxN; planted part: the small catalogues of mc_cfgs; '
                                      'the large catalogue is sampled by -simulate')
 
